@@ -24,7 +24,7 @@ import traceprep
 from common import Inconclusive, build_harness, log
 
 PREFIXES = ["healthy-timeout", "initerror", "crash", "timeout", "extcrash", "extiniterror", "one-ext-then-more", "ext-shutdown-error"]
-SUFFIXES = ["healthy", "crash", "early-internal", "timeout", "init-crash"]
+SUFFIXES = ["healthy", "crash", "early-internal", "timeout", "init-crash", "ext-early-exit"]
 
 
 def prefix(s, rnd, kind):
@@ -90,6 +90,15 @@ def suffix(s, rnd, kind, subs):
     internal = {"i1": ["INVOKE"]} if kind == "early-internal" else {}
     m = s.mark()
     it = s.invoke(size=6, seed=99)
+    if kind == "ext-early-exit" and subs:
+        # an extension of the new generation exits before it has registered: the invocation fails with that fault at
+        # once (a fresh instance notices an exit during the registration phase)
+        name = sorted(subs)[0]
+        s.await_exec(base=name, since=m)
+        s.sleep(30)
+        s.exit("ext:" + name, code=1)
+        s.wait(it)
+        return
     for name in subs:
         s.await_exec(base=name, since=m)
         s.register("ext:" + name, subs[name])
